@@ -710,6 +710,10 @@ func (e *exprCtx) expr(v ssa.Value) string {
 				return e.expr(r)
 			}
 		}
+		// a boolean flag merged from constants and conditions says when it is true (not just "one of false, true")
+		if s, ok := e.flagPhi(x); ok {
+			return s
+		}
 		// a counter that starts at 0 and is incremented by 1 per iteration (`for i := 0; …; i++`) is rendered like the
 		// index go/ssa synthesises for `for i := range s`, so that the two loop forms read alike
 		if len(x.Edges) == 2 {
@@ -2901,4 +2905,188 @@ func resolveAllocField(a *ssa.Alloc, f int, depth int) ssa.Value {
 		}
 	}
 	return v
+}
+
+
+// flagPhi renders a boolean phi whose edges are constants, plain boolean values or phis of the same kind — the shape
+// of `f := false; if a && b { f = true }` and of `a && b` evaluated as a value — as the disjunction of the conditions
+// under which it is true: any{(c1 & c2) | (c3)}. Conditions that hold for every way of reaching the phi's block are
+// left out (they do not distinguish the edges). Loop-carried flags (an edge is the phi itself, or the block is entered
+// from a block it dominates) keep the plain phi rendering: their value summarises earlier iterations.
+func (e *exprCtx) flagPhi(x *ssa.Phi) (string, bool) {
+	alts, ok := e.flagAlts(x, 0)
+	if !ok {
+		return "", false
+	}
+	alts = absorbAlts(alts)
+	if len(alts) == 0 {
+		return "false", true
+	}
+	var out []string
+	for _, a := range alts {
+		if len(a) == 0 {
+			return "true", true
+		}
+		sort.Strings(a)
+		out = append(out, "("+strings.Join(uniq(a), " & ")+")")
+	}
+	sort.Strings(out)
+	return "any{" + strings.Join(uniq(out), " | ") + "}", true
+}
+
+// flagBusy: phis whose flag rendering is being computed (the conditions it is made of are rendered by fresh contexts,
+// which must not come back to the same phi).
+var flagBusy = map[*ssa.Phi]bool{}
+
+func (e *exprCtx) flagAlts(x *ssa.Phi, depth int) ([][]string, bool) {
+	if depth > 2 || e.seen[x] || flagBusy[x] {
+		return nil, false
+	}
+	flagBusy[x] = true
+	defer delete(flagBusy, x)
+	if b, isB := x.Type().Underlying().(*types.Basic); !isB || b.Kind() != types.Bool {
+		return nil, false
+	}
+	blk := x.Block()
+	anyConst := false
+	for k, ed := range x.Edges {
+		if ed == ssa.Value(x) || k >= len(blk.Preds) {
+			return nil, false
+		}
+		if blk.Dominates(blk.Preds[k]) {
+			return nil, false // loop header
+		}
+		if _, isC := ed.(*ssa.Const); isC {
+			anyConst = true
+		}
+	}
+	if !anyConst {
+		return nil, false
+	}
+	common := map[string]bool{}
+	for _, g := range e.c.guardStrs(blk) {
+		common[g] = true
+	}
+	e.seen[x] = true
+	defer delete(e.seen, x)
+	var out [][]string
+	for k, ed := range x.Edges {
+		if !edgeLive(blk.Preds[k], blk) {
+			continue
+		}
+		var vals [][]string // alternatives under which this edge's value is true
+		switch v := ed.(type) {
+		case *ssa.Const:
+			if v.Value == nil || v.Value.Kind() != constant.Bool {
+				return nil, false
+			}
+			if !constant.BoolVal(v.Value) {
+				continue
+			}
+			vals = [][]string{{}}
+		case *ssa.Phi:
+			if sub, ok := e.flagAlts(v, depth+1); ok {
+				vals = sub
+			} else {
+				vals = [][]string{{canonGuard(true, e.expr(v))}}
+			}
+		default:
+			vals = [][]string{{canonGuard(true, e.expr(ed))}}
+		}
+		edgeAlts := e.c.pathEdgeAlts(blk.Preds[k], blk)
+		if len(edgeAlts) == 0 {
+			continue
+		}
+		for _, ea := range edgeAlts {
+			var lits []string
+			for _, l := range ea {
+				if !common[l] {
+					lits = append(lits, l)
+				}
+			}
+			for _, va := range vals {
+				out = append(out, uniq(append(append([]string{}, lits...), va...)))
+				if len(out) > 12 {
+					return nil, false
+				}
+			}
+		}
+	}
+	return out, true
+}
+
+
+// absorbAlts simplifies a disjunction of conjunctions: a literal ¬l is dropped from an alternative B when another
+// alternative A contains l and the rest of A is contained in the rest of B (A ∨ (¬l ∧ R) = A ∨ R when A\{l} ⊆ R), so
+// `a || b` evaluated left to right, (a) | (¬a & b), reads (a) | (b) like `b || a`; duplicates and supersets go.
+func absorbAlts(alts [][]string) [][]string {
+	has := func(a []string, l string) bool {
+		for _, x := range a {
+			if x == l {
+				return true
+			}
+		}
+		return false
+	}
+	for changed, rounds := true, 0; changed && rounds < 8; rounds++ {
+		changed = false
+		for i := range alts {
+			for j := range alts {
+				if i == j {
+					continue
+				}
+				for _, l := range alts[i] {
+					nl := negGuard(l)
+					if nl == "" || !has(alts[j], nl) {
+						continue
+					}
+					ok := true
+					for _, x := range alts[i] {
+						if x != l && !has(alts[j], x) {
+							ok = false
+							break
+						}
+					}
+					if ok {
+						var nb []string
+						for _, x := range alts[j] {
+							if x != nl {
+								nb = append(nb, x)
+							}
+						}
+						alts[j] = nb
+						changed = true
+					}
+				}
+			}
+		}
+		// drop supersets and duplicates
+		var keep [][]string
+		for i, a := range alts {
+			sub := false
+			for j, b := range alts {
+				if i == j {
+					continue
+				}
+				all := true
+				for _, x := range b {
+					if !has(a, x) {
+						all = false
+						break
+					}
+				}
+				if all && (len(b) < len(a) || j < i) {
+					sub = true
+					break
+				}
+			}
+			if !sub {
+				keep = append(keep, a)
+			} else {
+				changed = true
+			}
+		}
+		alts = keep
+	}
+	return alts
 }
